@@ -501,6 +501,16 @@ class Color(enum.Enum):
     ONE = "1"
 
 
+class IE(enum.IntEnum):
+    A = 1
+    B = 2
+
+
+class SE(str, enum.Enum):
+    A = "a"
+    ONE = "1"
+
+
 @dataclasses.dataclass
 class Point:
     a: int
@@ -531,7 +541,7 @@ def reps():
         ("date", datetime.date, "HDate", 6), ("datetime", datetime.datetime, "HDateTime", 7),
         ("time", datetime.time, "HTime", 8), ("timedelta", datetime.timedelta, "HTimeDelta", 9),
         ("pattern", re.Pattern, "HPattern", 10), ("uuid", uuid.UUID, "HUUID", 11),
-        ("path", pathlib.PurePosixPath, "HCast", 12), ("enum", Color, "HCast", 12), ("barelist", list, "HCast", 12),
+        ("path", pathlib.PurePosixPath, "HPath", 20), ("barelist", list, "HCast", 12),
         ("baredict", dict, "HCast", 12), ("dict_str_int", dict[str, int], "HSubMapping", 13),
         ("list_int", list[int], "HSubIterable", 14), ("set_str", set[str], "HSubIterable", 14),
         ("vtuple_int", tuple[int, ...], "HSubIterable", 14), ("iterator_int", typing.Iterator[int], "HSubIterator", 15),
@@ -539,6 +549,9 @@ def reps():
         ("namedtuple", NT, "HStructured", 17), ("typeddict", TD, "HStructured", 17),
     ]
     out = [(n, T, h, [(h, i, T)]) for n, T, h, i in simple]
+    # Enum: the remainder is the enum's own lookup by value (an interpreter primitive), asked directly
+    out.append(("enum", Color, "HEnum", [("HEnum", 21, Color)]))
+    out.append(("strenum", SE, "HEnum", [("HEnum", 21, SE)]))
     lit_term = None   # filled by the emitter (needs interning)
     out.append(("literal", Lit, ("HLiteral", LIT_VALUES), []))
     out.append(("union_int_str", typing.Union[int, str], ("HUnion", ["HNumber", "HString"]),
@@ -550,7 +563,7 @@ def reps():
     return out
 
 
-DECODE_FIRST = {"HNoneType", "HString", "HNumber", "HDate", "HDateTime", "HTime", "HTimeDelta", "HPattern"}
+DECODE_FIRST = {"HNoneType", "HString", "HNumber", "HDate", "HDateTime", "HTime", "HTimeDelta", "HPattern", "HPath"}
 LOAD_FIRST = {"HUUID", "HCast", "HSubMapping", "HSubIterable", "HSubIterator", "HFixedTuple", "HStructured"}
 
 
@@ -583,13 +596,17 @@ def rest_entries(em: Emitter, restspec, pr: Prims | None, nontext=None):
             cands = [nontext[0]]
         elif hname in DECODE_FIRST:
             cands = [pr.decoded] if pr.decoded is not None else []
-        elif hname in LOAD_FIRST:
+        elif hname in LOAD_FIRST or hname == "HEnum":
             for r in (pr.jbin, pr.jstr, pr.lit):
                 if r is not None and r[0] == "ok":
                     cands.append(r[1])
             if pr.decoded is not None:
                 cands.append(pr.decoded)
         for c in cands:
+            if hname == "HEnum":
+                o = attempt(Tm, c)                  # self.caster(c) = the Enum class called on the value
+                rows.append(f"({hid}%N, {em.pv(c)}, {em.res(o)})")
+                continue
             if hname in LOAD_FIRST and isinstance(c, (str, bytes, bytearray, memoryview)) and not prim_fixpoint(c):
                 rows.append(f"({hid}%N, {em.pv(c)}, Ok (POther 0%N))")          # cannot be observed separately
                 continue
@@ -699,16 +716,6 @@ def correspond(run: lib.Run):
 # ----------------------------------------------------------------------------------
 # the property oracle on the implementation (independent of the model)
 # ----------------------------------------------------------------------------------
-
-class IE(enum.IntEnum):
-    A = 1
-    B = 2
-
-
-class SE(str, enum.Enum):
-    A = "a"
-    ONE = "1"
-
 
 @dataclasses.dataclass
 class Inner:
